@@ -243,6 +243,7 @@ def run_case(case: dict) -> CaseResult:
     record: list[dict] = []
     classes: set[str] = set()
     seen_services: dict[int, tuple] = {}
+    kept: dict = {}
 
     async def main():
         for si, sess in enumerate(case["sessions"]):
@@ -267,7 +268,14 @@ def run_case(case: dict) -> CaseResult:
                         if prev is not None and prev != tuple(sargs):
                             classes.add("service_key_redefined")
                         seen_services[c["key"]] = tuple(sargs)
-                        cli.execute_service(svc, dict(c["data"]))
+                        if c.get("data_id") is not None:
+                            # the application keeps its argument dict (and its UserService) and passes the same objects
+                            # again: every call encodes what they hold
+                            classes.add("caller_owned_arguments_reused")
+                            svc = kept.setdefault(("svc", c["data_id"]), svc)
+                            cli.execute_service(svc, kept.setdefault(("data", c["data_id"]), dict(c["data"])))
+                        else:
+                            cli.execute_service(svc, dict(c["data"]))
                     else:
                         args = _mk_args(m, c["args"])
                         S = spec()[m]
@@ -431,6 +439,10 @@ def _case(draw, tier):
     for _ in range(draw(st.sampled_from([1, 1, 2, 3]))):
         api = draw(st.sampled_from(VERSIONS + [[1, 10], [1, 10]]))
         cmds = draw(st.lists(_command(tier), min_size=1, max_size=12))
+        for i, c in list(enumerate(cmds)):
+            if c["m"] == "execute_service" and draw(st.integers(0, 2)) == 0:
+                c["data_id"] = f"{len(sessions)}.{i}"
+                cmds.insert(draw(st.integers(i + 1, len(cmds))), dict(c))
         sessions.append({"api": api, "cmds": cmds})
         if draw(st.integers(0, 3)) == 1:
             sessions[-1]["dname"] = draw(st.sampled_from(["", "", "kitchen", "ü"]))
@@ -481,6 +493,11 @@ def enumerated(tier):
             cmds.append({"m": "execute_service", "key": 3, "sargs": [["i", 1], ["f", 2]], "data": {"i": iv, "f": 0.5}})
             cmds.append({"m": "execute_service", "key": 3, "sargs": [["s", 3], ["i", 1], ["ia", 5]], "data": {"i": iv, "s": "", "ia": [iv]}})
         yield {"noise": api == [1, 10], "sessions": [{"api": api, "cmds": cmds}]}
+    # the same argument dict (and service object) passed three times
+    for api in ([1, 10], [1, 2]):
+        c1 = {"m": "execute_service", "key": 4, "sargs": [["enabled", 0], ["level", 1], ["label", 3]], "data": {"enabled": True, "level": 7, "label": "x"}, "data_id": "k1"}
+        c2 = {"m": "execute_service", "key": 5, "sargs": [["ia", 5]], "data": {"ia": [1, 2]}, "data_id": "k2"}
+        yield {"noise": False, "sessions": [{"api": api, "cmds": [dict(c1), dict(c2), dict(c1), {"m": "switch_command", "key": 1, "args": {"state": True}}, dict(c1), dict(c2)]}]}
     # long text values: the request's size sweeps across the one-/two-byte length boundary of the plaintext framing
     # (and stays well-formed over Noise)
     for noise in (False, True):
